@@ -1,5 +1,5 @@
 SPECIFICATION TraceSpec
 CONSTANT MaxEdits = 9
-INVARIANTS MonNoCrash MonEdit MonLoad MonFormat
+INVARIANTS MonNoCrash MonEdit MonLoad MonFormat MonKept
 POSTCONDITION TraceAccepted
 CHECK_DEADLOCK FALSE
